@@ -288,7 +288,10 @@ impl<'a> PG<'a> {
                 // IF on one line
                 let c = self.cond();
                 let t = self.simple();
-                if self.rng.chance(1, 2) {
+                if self.rng.chance(1, 12) {
+                    // branch to the last line of the program, which holds no code (REM / DATA)
+                    self.emit(format!("IF {} THEN @TAIL", c));
+                } else if self.rng.chance(1, 2) {
                     let e = self.simple();
                     self.emit(format!("IF {} THEN {} ELSE {}", c, t, e));
                 } else if self.rng.chance(1, 3) {
@@ -485,6 +488,16 @@ pub fn gen_program(rng: &mut Rng, size: usize) -> Prog {
     if !data_early && n_data > 0 {
         let l = data_line(n_data, g.rng);
         g.emit(l);
+    }
+    if g.lines.iter().any(|(_, s)| s.contains("@TAIL")) {
+        let tail = g.next_line;
+        let what = if g.rng.chance(1, 2) { "REM tail" } else { "DATA 99" };
+        g.emit(what.to_string());
+        for (_, s) in g.lines.iter_mut() {
+            if s.contains("@TAIL") {
+                *s = s.replace("@TAIL", &tail.to_string());
+            }
+        }
     }
     g.subs = sub_lines.clone();
     for (_, s) in g.lines.iter_mut() {
